@@ -45,6 +45,10 @@ def get (d : Dir) (p : Path) : Option File :=
 def del (d : Dir) (p : Path) : Dir := d.filter (fun e => !(decide (e.1 = p)))
 def put (d : Dir) (p : Path) (f : File) : Dir := (p, f) :: del d p
 def has (d : Dir) (p : Path) : Bool := (get d p).isSome
+/-- no path is listed twice -/
+def wf : Dir → Bool
+  | [] => true
+  | (p, _) :: r => !(has r p) && wf r
 end Dir
 
 def applyMeta : List Repo → List (String × Bool) → List Repo
@@ -201,7 +205,7 @@ def renameAll (renameErrIgnored : Bool) (cleanOrder : List String) : List String
 
 /-- arrange `registered` in the order `order` mentions them (map iteration order is an input of the model) -/
 def arrange (order registered : List String) : List String :=
-  (order.eraseDups.filter (registered.contains ·)) ++ registered.filter (fun b => !order.contains b)
+  (order.filter (registered.contains ·)) ++ registered.filter (fun b => !order.contains b)
 
 /-- the loop of `explode`: one `builderWriteAll` per copied repository; the name is registered before writing.
     `simple r` is the simple shard's file name for repository `r`. -/
